@@ -302,6 +302,8 @@ func seqAxioms(S, E string) string {
 (assert (forall ((s $S) (n Int) (k Int)) (! (=> (and (<= 0 k) (<= k n) (<= n ($S.len s))) (= ($S.take ($S.take s n) k) ($S.take s k))) :pattern (($S.take ($S.take s n) k)))))
 (assert (forall ((s $S) (n Int) (k Int)) (! (=> (and (<= 0 n) (<= 0 k) (<= (+ n k) ($S.len s))) (= ($S.drop ($S.drop s n) k) ($S.drop s (+ n k)))) :pattern (($S.drop ($S.drop s n) k)))))
 (assert (forall ((s $S) (n Int)) (! (=> (and (<= 0 n) (<= n ($S.len s))) (= ($S.cat ($S.take s n) ($S.drop s n)) s)) :pattern (($S.cat ($S.take s n) ($S.drop s n))))))
+(assert (forall ((a $S) (b $S) (c $S)) (! (= ($S.cat ($S.cat a b) c) ($S.cat a ($S.cat b c))) :pattern (($S.cat ($S.cat a b) c)))))
+(assert (forall ((s $S) (a Int) (b Int)) (! (=> (and (<= 0 a) (<= a b) (<= b ($S.len s))) (= ($S.cat ($S.drop ($S.take s b) a) ($S.drop s b)) ($S.drop s a))) :pattern (($S.cat ($S.drop ($S.take s b) a) ($S.drop s b))))))
 (assert (forall ((s $S)) (! (= ($S.cat s $S.empty) s) :pattern (($S.cat s $S.empty)))))
 (assert (forall ((s $S)) (! (= ($S.cat $S.empty s) s) :pattern (($S.cat $S.empty s)))))
 `)
